@@ -108,6 +108,13 @@ func (c *ctl) recvFresh(t *rapid.T) {
 		m.Failf("acknowledgement of %s is {code %d result %x msg %q relayer %s fee %d}; the callback on a branch of the same state answers {code %d result %x msg %q relayer %s fee %d}",
 			p.T, got.Code, got.Result, got.Message, got.Relayer, got.FeeOption, want.Code, want.Result, want.Message, want.Relayer, want.FeeOption)
 	}
+	// independent of the code under test (the expectation above runs the packet contract through the module's own EVM
+	// helper): three call kinds are built so that the destination execution cannot complete - the post-processing of its
+	// EVM execution fails (staking hook on an invalid validator, onward packet to a chain without client) - so whatever
+	// happens before, the callback never succeeds and a success acknowledgement is impossible
+	if got.Code == 0 && (p.Call == "hookfail" || p.Call == "nested-unknown" || p.Call == "agent:no-such-chain") {
+		m.Failf("packet %s (call kind %s: its destination execution cannot complete) was acknowledged as SUCCESS", p.T, p.Call)
+	}
 	m.R.Label(fmt.Sprintf("recv_ack_code_%d_call_%s", p.Ack.Code, p.Call))
 	m.Log("recv", fmt.Sprintf("%s call=%s", p.T, p.Call), fmt.Sprintf("ack code=%d", p.Ack.Code))
 }
